@@ -4,7 +4,7 @@
 # applies, builds, repo tests pass, demo fails), then runs our checks against it.
 set -u
 id=$1; k=$2; shift 2
-src=/tmp/mut/$id-out/$k
+src=/tmp/mut/$id${ROUND:-}-out/$k
 [ -f $src/patch.diff ] || { echo "no patch in $src"; exit 2; }
 wt=/tmp/swt-$$
 git -C /repo worktree add -q "$wt" HEAD || exit 2
